@@ -64,32 +64,8 @@ def r1(ctx):
     else:
         ctx.ok(rule, "asn_extensible_integer_to_rust", detail)
     ctx.floor(rule, len(built), "C15.R1.constructors")
-    # unsigned only below a non-negative lower bound: every path to a U64 construction takes the true edge of `min >= 0`
-    cmps = [c for c in F.comparisons(b, O) if c.switch_bb is not None and c.kind == "b" and c.boundary == 0 and c.rhs == "" and "min(" in c.lhs]
-    # the same test written with a combinator: `min.map_or(true, |v| v >= 0)`, `min.is_none_or(|v| v >= 0)`, `!min.is_some_and(|v| v < 0)`
-    if not cmps:
-        class _C:
-            pass
-        for sbb, t in b.switches():
-            ex = F.strip_casts(O.switch_cond(sbb))
-            neg = False
-            while ex[0] == "un" and ex[1] == "Not":
-                ex = F.strip_casts(ex[2])
-                neg = not neg
-            if not (ex[0] == "call" and X.last_seg(ex[1] or "") in ("map_or", "is_some_and", "is_none_or") and "min(" in X.render(ex[3][0])):
-                continue
-            for a in ex[3][1:]:
-                if a[0] == "agg" and a[1] == "closure":
-                    cb = P.bodies.get("%s::%s" % (b.crate, a[2]))
-                    if cb is None:
-                        continue
-                    for c in F.comparisons(cb, X.Origins(cb, P)):
-                        if c.kind == "b" and c.boundary == 0 and c.rhs == "":
-                            pc = _C()
-                            pc.switch_bb = sbb
-                            pc.raw = "%s(.., |v| %s)" % (X.last_seg(ex[1]), c.raw)
-                            pc.nop = c.nop if not neg else {"Ge": "Lt", "Gt": "Le", "Lt": "Ge", "Le": "Gt"}.get(c.nop, c.nop)
-                            cmps.append(pc)
+    # unsigned only between non-negative bounds: every path to a (guard-selected) U64 construction takes the true edge of
+    # `min >= 0` *and* of `max >= 0` - the lower bound may be absent (MIN), then only the upper bound says that the values are negative
     u64_blocks = set()
     for bb, j, s in b.all_statements():
         if s["k"] == "assign" and s["rv"]["k"] == "agg" and s["rv"].get("adt", "").endswith("RustType") and s["rv"].get("variant") == "U64":
@@ -99,34 +75,63 @@ def r1(ctx):
                 continue        # U64(None, ..): selected by the literal patterns None / Some(0), not by the guard
             u64_blocks.add(bb)
     u64_blocks = sorted(u64_blocks)
-    d2 = {"function": b.path, "lower_bound_tests": [c.raw for c in cmps], "u64_built_in_blocks": u64_blocks}
-    if not cmps:
-        ctx.fail(rule, "unsigned-needs-nonnegative-min", "no `min >= 0` test decides between U64 and I64", "%s:%d" % (b.file, b.line), d2)
-    elif u64_blocks:
-        c = cmps[0]
-        t = b.blocks[c.switch_bb]["term"]
-        tr, fl = t["otherwise"], t["targets"][0]
-        if c.nop in ("Lt", "Le"):
-            tr, fl = fl, tr
-        # reachability with the edge (test -> true successor) removed
-        seen, work = set(), [0]
-        while work:
-            x = work.pop()
-            if x in seen:
-                continue
-            seen.add(x)
-            for y in b.succ[x]:
-                if x == c.switch_bb and y == tr and tr != fl:
-                    continue
-                work.append(y)
-        leak = [x for x in u64_blocks if x in seen]
-        if leak:
-            ctx.fail(rule, "unsigned-needs-nonnegative-min", "RustType::U64 can be chosen on a path on which `%s` is false: an extensible "
-                                                             "INTEGER with a negative lower bound gets an unsigned type" % c.raw[-60:],
-                     c.loc, d2)
-        else:
-            ctx.ok(rule, "unsigned-needs-nonnegative-min", d2)
 
+    class _C:
+        pass
+    for which, label in (("min", "lower"), ("max", "upper")):
+        cmps = [c for c in F.comparisons(b, O) if c.switch_bb is not None and c.kind == "b" and c.boundary == 0 and c.rhs == ""
+                and (which + "(") in c.lhs]
+        # the same test written with a combinator: `min.map_or(true, |v| v >= 0)`, `min.is_none_or(|v| v >= 0)`, `!min.is_some_and(|v| v < 0)`
+        if not cmps:
+            for sbb, t in b.switches():
+                ex = F.strip_casts(O.switch_cond(sbb))
+                neg = False
+                while ex[0] == "un" and ex[1] == "Not":
+                    ex = F.strip_casts(ex[2])
+                    neg = not neg
+                if not (ex[0] == "call" and X.last_seg(ex[1] or "") in ("map_or", "is_some_and", "is_none_or")
+                        and (which + "(") in X.render(ex[3][0])):
+                    continue
+                for a in ex[3][1:]:
+                    if a[0] == "agg" and a[1] == "closure":
+                        cb = P.bodies.get("%s::%s" % (b.crate, a[2]))
+                        if cb is None:
+                            continue
+                        for c in F.comparisons(cb, X.Origins(cb, P)):
+                            if c.kind == "b" and c.boundary == 0 and c.rhs == "":
+                                pc = _C()
+                                pc.switch_bb = sbb
+                                pc.loc = c.loc
+                                pc.raw = "%s(.., |v| %s)" % (X.last_seg(ex[1]), c.raw)
+                                pc.nop = c.nop if not neg else {"Ge": "Lt", "Gt": "Le", "Lt": "Ge", "Le": "Gt"}.get(c.nop, c.nop)
+                                cmps.append(pc)
+        key = "unsigned-needs-nonnegative-" + which
+        d2 = {"function": b.path, "%s_bound_tests" % label: [c.raw for c in cmps], "u64_built_in_blocks": u64_blocks}
+        if not cmps:
+            ctx.fail(rule, key, "no `%s >= 0` test decides between U64 and I64" % which, "%s:%d" % (b.file, b.line), d2)
+        elif u64_blocks:
+            c = cmps[0]
+            t = b.blocks[c.switch_bb]["term"]
+            tr, fl = t["otherwise"], t["targets"][0]
+            if c.nop in ("Lt", "Le"):
+                tr, fl = fl, tr
+            # reachability with the edge (test -> true successor) removed
+            seen, work = set(), [0]
+            while work:
+                x = work.pop()
+                if x in seen:
+                    continue
+                seen.add(x)
+                for y in b.succ[x]:
+                    if x == c.switch_bb and y == tr and tr != fl:
+                        continue
+                    work.append(y)
+            leak = [x for x in u64_blocks if x in seen]
+            if leak:
+                ctx.fail(rule, key, "RustType::U64 can be chosen on a path on which `%s` is false: an extensible INTEGER with a negative %s "
+                                    "bound gets an unsigned type" % (c.raw[-60:], label), c.loc, d2)
+            else:
+                ctx.ok(rule, key, d2)
 
 def r2_r4(ctx):
     r2 = "C15.R2"
@@ -289,9 +294,11 @@ def r3(ctx):
         Ob = Og if body is g else X.Origins(body, P)
         for cs in body.calls():
             if cs.name in ("new_fn", "line", "min", "max") and cs.fn and cs.fn["crate"] in ("codegen", "asn1rs_model"):
-                calls.append((cs.bb, cs.name, X.render(Ob.call_args(cs)[-1])[:120] if cs.args else "", cs.loc(), body.path))
-    lines = sorted((int(c[3].split(":")[1]), c[2]) for c in calls if c[1] == "line")
-    templ = sorted((st["line"], st["s"]) for _, f in fns for st in f["strings"] if st["s"] in ("{}min", "{}max"))
+                calls.append((cs.bb, cs.name, X.render(Ob.call_args(cs)[-1])[:400] if cs.args else "", cs.site_loc(), body.path, cs.site_lines()))
+    lines = sorted((int(c[3].split(":")[1]), c[2], c[5]) for c in calls if c[1] == "line")
+    # the accessor names: `{}min` / `{}max` (prefix with its underscore) or `{}_min` / `{}_max`
+    templ = sorted((st["line"], "{}" + st["s"].lstrip("{}").lstrip("_")) for _, f in fns for st in f.get("own_strings", f["strings"])
+                   if st["s"] in ("{}min", "{}max", "{}_min", "{}_max"))
     detail = {"function": g.path, "templates": templ, "line_calls": lines}
     if len(templ) != 2 and lines and _table_driven_accessors(ctx, rule, P, g, Og, fns, lines, detail):
         return
@@ -300,10 +307,12 @@ def r3(ctx):
         return
     for ln, t in templ:
         which = "min" if t == "{}min" else "max"
-        nxt = [l for l in lines if l[0] >= ln]
+        # a body line written by an expanded helper belongs to the template inside that expansion's call expression
+        inside = [l for l in lines if l[2] is not None and l[2][0] <= ln <= l[2][1]]
+        nxt = [l for l in lines if l[0] >= ln and l[2] is None]
         # the body line of this accessor is the first `.line(..)` after the template (and before the next template)
         other = [x[0] for x in templ if x[0] > ln]
-        nxt = [l for l in nxt if not other or l[0] < other[0]]
+        nxt = inside or [l for l in nxt if not other or l[0] < other[0]]
         if not nxt:
             ctx.fail(rule, "accessor:" + which, "no body line found for the *_%s accessor" % which, "%s:%d" % (g.file, ln), detail)
         elif ("Range::%s(" % which) not in nxt[0][1]:
